@@ -162,6 +162,98 @@ def walk_all(node) -> Iterator[ast.AST]:
     return ast.walk(node)
 
 
+def normalize_tree(tree: ast.AST) -> ast.AST:
+    """Behaviour-preserving normalisation applied to every module before indexing (so that rules see one shape for
+    trivially different programs):  beta-reduction of *single-statement local closures called as a statement* -
+    inside a function, `def h(a, b): <one simple statement>` followed by statement calls `h(x, y)` are replaced by that
+    statement with the parameters substituted.  Applied only when it is obviously sound: positional/keyword arguments that
+    are names, attributes, constants or pure calls of len()/str(); no defaults, *args, nonlocal, return value or recursion;
+    every use of the closure's name is such a call.  The definition itself is kept (dead), positions point at the call."""
+    import copy
+
+    def simple_arg(a):
+        if isinstance(a, (ast.Name, ast.Constant)):
+            return True
+        if isinstance(a, ast.Attribute):
+            return simple_arg(a.value)
+        if isinstance(a, ast.Call) and isinstance(a.func, ast.Name) and a.func.id in ("len", "str") and len(a.args) == 1 and not a.keywords:
+            return simple_arg(a.args[0])
+        return False
+
+    for fn in [n for n in ast.walk(tree) if isinstance(n, (ast.FunctionDef, ast.AsyncFunctionDef))]:
+        closures = {}
+        for st in fn.body:
+            if isinstance(st, ast.FunctionDef) and not st.decorator_list:
+                body = st.body
+                if body and isinstance(body[0], ast.Expr) and isinstance(body[0].value, ast.Constant) and isinstance(body[0].value.value, str):
+                    body = body[1:]
+                a = st.args
+                if len(body) == 1 and isinstance(body[0], (ast.Expr, ast.Assign)) and not (a.defaults or a.vararg or a.kwarg or a.kwonlyargs or a.posonlyargs):
+                    if not any(isinstance(x, (ast.Yield, ast.YieldFrom, ast.Await, ast.Lambda)) or (isinstance(x, ast.Name) and x.id == st.name) for x in ast.walk(body[0])):
+                        # assignments in the closure body must not create closure-local names (they would become locals of fn)
+                        if isinstance(body[0], ast.Assign) and any(isinstance(t, ast.Name) for t in body[0].targets):
+                            continue
+                        closures[st.name] = (st, body[0])
+        if not closures:
+            continue
+        # every load of the closure name must be the callee of a statement call with simple arguments
+        uses = {k: [] for k in closures}
+        okc = {k: True for k in closures}
+        stmt_calls = {}
+        for parent in ast.walk(fn):
+            for field, value in ast.iter_fields(parent):
+                if isinstance(value, list):
+                    for i, st in enumerate(value):
+                        if isinstance(st, ast.Expr) and isinstance(st.value, ast.Call) and isinstance(st.value.func, ast.Name) and st.value.func.id in closures:
+                            stmt_calls[id(st.value.func)] = (value, i, st)
+        for x in ast.walk(fn):
+            if isinstance(x, ast.Name) and x.id in closures and isinstance(x.ctx, ast.Load):
+                if id(x) in stmt_calls:
+                    uses[x.id].append(stmt_calls[id(x)])
+                else:
+                    okc[x.id] = False
+        for name, (defn, body_stmt) in closures.items():
+            if not okc[name] or not uses[name]:
+                continue
+            params = [p.arg for p in defn.args.args]
+            plan = []
+            for lst, i, st in uses[name]:
+                call = st.value
+                if any(isinstance(a_, ast.Starred) for a_ in call.args) or len(call.args) > len(params):
+                    plan = None
+                    break
+                binding = dict(zip(params, call.args))
+                for k in call.keywords:
+                    if k.arg is None or k.arg not in params or k.arg in binding:
+                        plan = None
+                        break
+                    binding[k.arg] = k.value
+                if plan is None or set(binding) != set(params) or not all(simple_arg(v) for v in binding.values()):
+                    plan = None
+                    break
+                plan.append((lst, st, binding))
+            if not plan:
+                continue
+            for lst, st, binding in plan:
+
+                class Sub(ast.NodeTransformer):
+                    def visit_Name(self, node):
+                        if node.id in binding and isinstance(node.ctx, ast.Load):
+                            return ast.copy_location(copy.deepcopy(binding[node.id]), node)
+                        return node
+                new_st = Sub().visit(copy.deepcopy(body_stmt))
+                for x in ast.walk(new_st):
+                    if hasattr(x, "lineno"):
+                        x.lineno = st.lineno
+                        x.end_lineno = getattr(st, "end_lineno", st.lineno)
+                        x.col_offset = st.col_offset
+                        x.end_col_offset = getattr(st, "end_col_offset", st.col_offset)
+                idx = next(j for j, y in enumerate(lst) if y is st)
+                lst[idx] = new_st
+    ast.fix_missing_locations(tree)
+    return tree
+
+
 class Module:
     def __init__(self, name: str, path: str, src: str):
         self.name = name  # 'rich.style'
@@ -170,6 +262,8 @@ class Module:
         self.relpath = os.path.relpath(path, REPO_ROOT)
         self.src = src
         self.tree = ast.parse(src, filename=path)
+        if os.environ.get("SA_NO_NORMALIZE") != "1":
+            self.tree = normalize_tree(self.tree)
         self.functions: Dict[str, FuncInfo] = {}
         self.classes: Dict[str, ClassInfo] = {}
         self.imports: Dict[str, Tuple[str, Optional[str]]] = {}  # local -> (module, name|None)
